@@ -296,7 +296,7 @@ Proof. repeat split; vm_compute; reflexivity. Qed.
 From Mxj Require Import GenProofs.PureG7.
 
 Theorem C13_new_map_json_reader_code_is_model : forall nmj st sc,
-  fn_NewMapJsonReader (run_getJson st) nmj st sc
+  fn_NewMapJsonReader nmj (run_getJson st) st sc
   = match new_map_json_reader (nmj_of nmj) sc with
     | Some (Ok v, sc') => Ret (Ok (entries_of v), sc')
     | Some (Err e, sc') => Ret (Err e, sc')
@@ -306,7 +306,7 @@ Proof. exact new_map_json_reader_code_is_model. Qed.
 Print Assumptions C13_new_map_json_reader_code_is_model.
 
 Theorem C13_new_map_json_reader_raw_code_is_model : forall nmj st sc,
-  fn_NewMapJsonReaderRaw (run_getJson st) nmj st sc
+  fn_NewMapJsonReaderRaw nmj (run_getJson st) st sc
   = match new_map_json_reader_raw (nmj_of nmj) sc with
     | Some (Ok v, b, sc') => Ret ((entries_of v, b, None), sc')
     | Some (Err e, b, sc') => Ret (([], b, Some e), sc')
@@ -316,7 +316,7 @@ Proof. exact new_map_json_reader_raw_code_is_model. Qed.
 Print Assumptions C13_new_map_json_reader_raw_code_is_model.
 
 Example C13_reader_code_nonvacuous :
-  fn_NewMapJsonReaderRaw (run_getJson gstate0) (fun b => Ok [(s "n", VFlt (itoa (length b)))]) gstate0
+  fn_NewMapJsonReaderRaw (fun b => Ok [(s "n", VFlt (itoa (length b)))]) (run_getJson gstate0) gstate0
     [Zero; Data lbrace; Data rbrace; Zero; DataEOF lbrace] =
     Ret (([(s "n", VFlt (s "2"))], s "{}", None), [Zero; DataEOF lbrace]).
 Proof. vm_compute. reflexivity. Qed.
